@@ -226,6 +226,16 @@ func unionPlain(name string) Def {
 	}}
 }
 
+// unionDocs: a deprecated branch FOLLOWED by further branches, doc comments on branches.
+func unionDocs(name string) Def {
+	return Def{Kind: "union", Name: name, Doc: " u", Branches: []Br{
+		{Index: idx(1), IdxV: 1, Depr: true, DeprM: "old " + printable(1), Def: Def{Kind: "message", Name: name + "A", Fields: []Fld{{Name: "b", Ty: prim("date"), Index: idx(1), IdxV: 1}}}},
+		{Index: idx(2), IdxV: 2, Def: Def{Kind: "struct", Name: name + "B", Doc: " second", Fields: []Fld{{Name: "a", Ty: prim("bool")}}}},
+		{Index: idx(5), IdxV: 5, Depr: true, DeprM: "", Def: Def{Kind: "struct", Name: name + "C"}},
+		{Index: idx(7), IdxV: 7, Def: Def{Kind: "message", Name: name + "D", Fields: []Fld{{Name: "x", Ty: prim("int32"), Index: idx(3), IdxV: 3, Depr: true, DeprM: "f"}, {Name: "y", Ty: prim("int32"), Index: idx(4), IdxV: 4}}}},
+	}}
+}
+
 func unionOp(name string) Def {
 	d := unionPlain(name)
 	d.OpLit, d.OpV = []byte("7"), 7
@@ -273,7 +283,7 @@ func byKind(k int, name string) Def {
 var enumBases = []string{"byte", "uint8", "uint16", "int16", "uint32", "int32", "uint64", "int64"}
 
 // nSingles is the number of single-definition cases of Case.
-const nSingles = 40
+const nSingles = 43
 
 // NCases is the number of schema cases.
 const NCases = nSingles + nKinds*nKinds
@@ -290,6 +300,7 @@ func Case(i int) (defs []Def, docs bool) {
 	if i >= 30 && i < 40 {
 		return deepTypeCase(i - 30), false
 	}
+	symOn = true
 	switch i {
 	case 0:
 		return []Def{enumPlain(ident("E"))}, false
@@ -339,6 +350,29 @@ func Case(i int) (defs []Def, docs bool) {
 		return []Def{constDef("go_package", "string", "\"github.com/x/y\""), structRO("S")}, false
 	case 29:
 		return blockDocs(), true
+	case 42:
+		// end-of-line comments after fields and after closing braces
+		st := structPlain("S")
+		st.Fields[0].Trail = " note " + printable(1)
+		st.Trail = " end of S"
+		ms := messagePlain("M")
+		ms.Fields[1].Trail = " last"
+		ms.Trail = " end of M"
+		en := enumPlain("E")
+		en.Trail = " end of E"
+		return []Def{st, ms, en, structRO("T")}, true
+	case 40:
+		return []Def{unionDocs("U")}, true
+	case 41:
+		// attributes on the first and the last element of each body
+		st := structPlain("S")
+		st.Fields[0].Depr, st.Fields[0].DeprM = true, "first"
+		ms := messagePlain("M")
+		ms.Fields[1].Depr, ms.Fields[1].DeprM = true, "last "+printable(1)
+		en := enumPlain("E")
+		en.Opts[0].Depr, en.Opts[0].DeprM = true, "a"
+		en.Opts[1].Depr, en.Opts[1].DeprM = true, "b"
+		return []Def{st, ms, en}, true
 	}
 	return []Def{enumTyped("E", "int64"), structOpStr("T")}, false
 }
@@ -355,7 +389,13 @@ func styleFor(docs bool, gaps int) *Style {
 		}
 		return s
 	}
-	switch vstub.Choose(0, 3) {
+	switch vstub.Choose(0, 4) {
+	case 4:
+		s.DeprSame = docs
+		if !docs {
+			s.NL = []byte("\r\n")
+			s.Tab = true
+		}
 	case 1:
 		s.NL = []byte("\r\n")
 	case 2:
